@@ -130,6 +130,26 @@ func run(e *core.Env) {
 		}
 	}
 
+	// Wave 16: the mesh has been up for a while (a sixth of the converged runs). Nothing about the
+	// mesh changes; routers go on announcing themselves every five minutes and clean their tables
+	// once a minute. What was a converged honest mesh stays one: the requests below are judged
+	// without looking at the tables again.
+	if converged && n <= 10 && tp.Chance(1, 4) {
+		up := 6*time.Minute + time.Duration(tp.Intn(1200))*time.Second
+		if tp.Chance(1, 2) {
+			// aimed at the minutes in which what was learned in an earlier round runs out unless
+			// a later round renewed it (announcements promise two rounds and a few seconds)
+			up = time.Duration(1+tp.Intn(3))*10*time.Minute + time.Duration(15+tp.Intn(270))*time.Second
+		}
+		ms.Net.RunFor(tp, up, 400000)
+		simnet.Wait()
+		if ms.Net.DrainFIFO(tp, 60000) >= 60000 {
+			e.Infra("long uptime did not drain")
+		}
+		finish("long uptime")
+		e.Probe("mesh_up_for_minutes_before_the_requests")
+	}
+
 	probeBase := 0
 	if n >= 2 {
 		if pf, err := ms.NewProbeFrame(ms.Nodes[0], ms.Nodes[1].IP, nil, nil, false, ""); err == nil {
